@@ -45,6 +45,10 @@ SCENARIOS += [
      "slow": {"req|AA-1": 0.15}},
     {"name": "acceptor-abort-short-artim-slow-handler", "ops": ["echo"], "end": "wait", "server": ["abort", "idle"], "short_artim": "acc",
      "slow": {"acc|AA-1": 0.15}},
+    # the acceptor's reactor is busy (a handler blocks for 2.5 s) when the requestor asks for the release: the requestor's wait is
+    # governed by its ACSE timeout (0.4 s), not by its DIMSE timeout (6 s)
+    {"name": "release-while-peer-busy-longer-than-acse-timeout", "ops": ["echo-bg"], "end": "release", "handler": "block-2.5",
+     "req_timeouts": (0.4, 6.0, 6.0, 3.0)},
     {"name": "release-short-artim-slow-handler", "ops": ["echo"], "end": "release", "short_artim": "acc", "slow": {"acc|AR-4": 0.15}},
     # a second user thread of the requestor releases while its own C-ECHO is still being served by a slow handler ...
     {"name": "release-from-second-thread-during-own-echo", "ops": ["echo-bg"], "end": "release", "handler": "block"},
@@ -133,7 +137,7 @@ def run(scn, seed=0, yields=None, raise_mask_acc=None, raise_mask_req=None, watc
     acc_net = scn.get("acc_net_timeout", 3.0)
     # ACSE/DIMSE timeouts are generous so that a loaded machine cannot turn a slow answer into a timeout-abort
     ae_acc = harness.make_ae(title="ACCEPTOR", timeouts=(3.0, 3.0, acc_net, 3.0), supported=[VER, CT, FIND])
-    ae_req = harness.make_ae(title="REQUESTOR", timeouts=(3.0, 3.0, 4.0, 3.0), requested=[VER, CT, FIND])
+    ae_req = harness.make_ae(title="REQUESTOR", timeouts=scn.get("req_timeouts", (3.0, 3.0, 4.0, 3.0)), requested=[VER, CT, FIND])
     if scn.get("reject"):
         ae_acc.require_called_aet = True
     acc_assoc = {}
@@ -144,6 +148,8 @@ def run(scn, seed=0, yields=None, raise_mask_acc=None, raise_mask_req=None, watc
             event.assoc.abort()
         elif scn.get("handler") == "sleep":
             time.sleep(0.25)
+        elif scn.get("handler") == "block-2.5":
+            time.sleep(2.5)
         elif scn.get("handler") == "block":
             # released by the server-side script, else after the peer's A-RELEASE-RQ has arrived (+ a little), else after 2 s
             if sync["release_rq_seen"].wait(2.0) and not scn.get("server"):
@@ -261,7 +267,9 @@ def run(scn, seed=0, yields=None, raise_mask_acc=None, raise_mask_req=None, watc
             sync["go_end"].set()
             end = scn["end"]
             if end == "release":
+                t_rel = time.monotonic()
                 assoc.release()
+                res["req"]["release_call_s"] = round(time.monotonic() - t_rel, 3)
             elif end == "abort":
                 assoc.abort()
             elif end == "abort2":
@@ -322,7 +330,8 @@ def run(scn, seed=0, yields=None, raise_mask_acc=None, raise_mask_req=None, watc
         return {"established": a.is_established, "released": a.is_released, "aborted": a.is_aborted, "rejected": a.is_rejected,
                 "alive": a.is_alive(), "dul_alive": a.dul.is_alive(), "fsm": a.dul.state_machine.current_state}
     out = {"history": rec.events, "req": flags(req_assoc), "acc": flags(a_assoc), "statuses": res["req"].get("status"),
-           "user_exc": res.get("user_exc"), "quiet": quiet_ok, "wall": round(time.time() - t0, 2),
+           "user_exc": res.get("user_exc"), "quiet": quiet_ok, "release_call_s": res["req"].get("release_call_s"),
+           "req_acse_timeout": scn.get("req_timeouts", (3.0,))[0], "wall": round(time.time() - t0, 2),
            "requestor_returned": not rt.is_alive(), "open_sockets": len(taps.open_sockets()),
            "req_id": id(req_assoc) if req_assoc is not None else None, "acc_id": id(a_assoc) if a_assoc is not None else None,
            "excs": list(taps.State.excs), "fsm_problems": list(taps.State.fsm_problems),
